@@ -505,6 +505,16 @@ def rule_F1(ctx):
         raise AnalysisError("run.run's trace path is opened for reading in %s" % reads[0][0].qualname)
     if not sites:
         raise AnalysisError("no call opens run.run's out_file for writing: the trace writer vanished")
+    # the writing itself may live in a helper newer than the rules that create_main_run_output calls once, outside any
+    # loop (`save_trace_results(results, out_file)`): that helper is then the writer whose frame / dump are judged, and
+    # the mapping it dumps is followed back through the one call
+    cmro, relay = writer, None
+    if len(sites) == 1 and sites[0][0] is not writer and prog.is_new_function(sites[0][0]):
+        W = sites[0][0]
+        wc = [(fi, c) for fi in prog.functions.values() for c in calls(fi.node) if last_name(c) == W.name and fi is not W]
+        if len(wc) == 1 and wc[0][0] is cmro and loop_ancestor(wc[0][1], cmro.node, parents(cmro.node)) is None and not swallowing_handlers(wc[0][1], cmro.node, parents(cmro.node)):
+            relay = wc[0][1]
+            writer, wmod = W, W.module
     foreign = [s for s in sites if s[0] is not writer]
     ctx.check(not foreign and len(sites) == 1, "F1", "the trace path is opened for writing once, by create_main_run_output", (foreign or sites)[0][0].where((foreign or sites)[0][1]),
               "the trace path is opened for writing %d time(s), in %s: a second writer adds or replaces frames the readers' single load does not account for" % (len(sites), ", ".join(sorted({s[0].qualname for s in sites}))),
@@ -523,7 +533,7 @@ def rule_F1(ctx):
     if not dumps:
         raise AnalysisError("create_main_run_output contains no recognised pickle.dump call")
     # the mapping parameter: the one run.run feeds from the dict it fills
-    wcalls = [(fi, c) for fi in prog.functions.values() for c in calls(fi.node) if last_name(c) == writer.name and fi is not writer]
+    wcalls = [(fi, c) for fi in prog.functions.values() for c in calls(fi.node) if last_name(c) == cmro.name and fi is not cmro]
     run_calls = [c for fi, c in wcalls if fi is run]
     good = []
     for d in dumps:
@@ -550,8 +560,14 @@ def rule_F1(ctx):
         ctx.check(lp is None, "F1", "pickle.dump is outside every loop", writer.where(d),
                   "pickle.dump sits inside `%s`: the stream holds one frame per pass, a cut between two frames leaves a well-formed shorter trace" % u(lp).split(":")[0][:70] if lp is not None else "",
                   construct=writer.qualname, stmt="pickle.dump in loop")
+    outer_param = good[0][2].id if good and good[0][1] else None
+    if relay is not None and outer_param is not None:
+        a = param_arg(relay, writer, outer_param)
+        if not (isinstance(a, ast.Name) and a.id in cmro.params and not any(isinstance(x, ast.Name) and x.id == a.id and isinstance(x.ctx, ast.Store) for x in ast.walk(cmro.node))):
+            raise AnalysisError("create_main_run_output hands %s to %s as the mapping to dump; expected its own results parameter" % (u(a) if a is not None else "nothing", writer.name))
+        outer_param = a.id
     if good and good[0][1] and len(run_calls) == 1:
-        a = param_arg(run_calls[0], writer, good[0][2].id)
+        a = param_arg(run_calls[0], cmro, outer_param)
         if not isinstance(a, ast.Name):
             raise AnalysisError("run.run passes %s as the results mapping; expected the local it fills" % (u(a) if a is not None else "nothing"))
         results_var = a.id
